@@ -18,7 +18,7 @@ then measured on both.  CPython's `re` engine cost and wall-clock time are outsi
 namespace PycModel.C16
 open PycModel
 
-variable {ty : String → Bool}
+variable {env : Env}
 
 /-- scanner: every iteration of the main loop strictly shortens the unread text -/
 theorem scanner_linear_iterations {cfg : LexCfg} (h : cfg.wf = true) (isType : String → Bool)
@@ -63,7 +63,7 @@ right tree: fuel bounds the recursion depth plus the number of loop iterations o
 (every `self` call and every loop re-entry of the model consumes one unit). -/
 theorem expression_fuel_linear (e : E) (m : Nat) (s : PState) (stop : Tk) (rest : List Tk)
     (hwf : WFE m e) (hstop1 : binPrec stop.1 = none) (hstop2 : stop.1 ∉ postfixStarters)
-    (hs : SeesT ty s (e.flat ++ stop :: rest)) :
+    (hs : SeesT env s (e.flat ++ stop :: rest)) :
     ∃ s', run (9 * e.ntoks) (.binaryExpression m none) s = .ok (e.val s.idx) s' :=
   let ⟨s', h, _⟩ := (parse_ok e).1 m s stop rest hwf hstop1 hstop2 hs (9 * e.ntoks) (fuel_linear e)
   ⟨s', h⟩
@@ -75,7 +75,7 @@ any depth, expressions with every operator, call and subscript of `Proofs/FullEx
 nested to any size - fuel `13 * (number of tokens)` suffices for the parser model to finish with the
 right tree. -/
 theorem statement_fuel_linear (st : S) (hwf : WFS st) (s : PState) (rest : List Tk)
-    (hs : SeesT ty s (st.flat ++ rest))
+    (hs : SeesT env s (st.flat ++ rest))
     (hel : st.openIf = true → ∀ k v r, rest = (k, v) :: r → k ≠ "ELSE") :
     ∃ s', run (13 * st.ntoks) .statement s = .ok (st.val s.idx) s' :=
   let ⟨s', h, _⟩ := parse_stmt st hwf s rest hs hel (13 * st.ntoks) (by have := S.fuel_linear st; omega)
